@@ -10,7 +10,7 @@ import (
 	"fmt"
 	"hash/crc32"
 	"image"
-	_ "image/jpeg"
+	"image/jpeg"
 	_ "image/png"
 	"io"
 	"math/rand"
@@ -460,6 +460,7 @@ type jpegOpt struct {
 	realTables   [][]byte // DQT/DHT segments taken from a real file (decodable filler)
 	app2AfterICC bool     // a non-ICC APP2 segment (MPF) between the ICC chunks and the frame header
 	bigTail      int      // this many 65533-byte COM segments after everything the loader needs, before SOS
+	noJFIF       bool     // no APP0 after SOI: the first segment is whatever comes next (DQT, COM, SOF, APP2, ...)
 }
 
 func jpegFiller(rng *rand.Rand, o *jpegOpt) []byte {
@@ -592,7 +593,9 @@ func buildJPEG(rng *rand.Rand, o jpegOpt) *mfile {
 		}
 		b = append(b, jpegSeg(m, d)...)
 	}
-	b = append(b, jpegSeg(0xe0, []byte("JFIF\x00\x01\x01\x00\x00\x01\x00\x01\x00\x00"))...)
+	if !o.noJFIF {
+		b = append(b, jpegSeg(0xe0, []byte("JFIF\x00\x01\x01\x00\x00\x01\x00\x01\x00\x00"))...)
+	}
 	endICC, endSOF := -1, -1
 	if !o.iccAfterSOF {
 		for i := 0; i < o.nBefore; i++ {
@@ -654,6 +657,36 @@ func buildJPEG(rng *rand.Rand, o jpegOpt) *mfile {
 		if endSOF > endICC {
 			f.End = endSOF
 		}
+	}
+	return f
+}
+
+// a JPEG written by image/jpeg (starts with DQT, no APPn segment at all)
+func stdlibJPEG(rng *rand.Rand, w, h int, gray bool) *mfile {
+	var img image.Image
+	if gray {
+		g := image.NewGray(image.Rect(0, 0, w, h))
+		rng.Read(g.Pix)
+		img = g
+	} else {
+		g := image.NewRGBA(image.Rect(0, 0, w, h))
+		rng.Read(g.Pix)
+		img = g
+	}
+	var buf bytes.Buffer
+	if err := jpeg.Encode(&buf, img, &jpeg.Options{Quality: 50 + rng.Intn(50)}); err != nil {
+		panic(err)
+	}
+	b := buf.Bytes()
+	f := &mfile{Fmt: "jpeg", W: uint32(w), H: uint32(h), Bits: 8, ICC: "none", Decodable: true, Data: b}
+	// end of needed = end of the SOS segment
+	for i := 2; i+4 <= len(b); {
+		l := int(b[i+2])<<8 | int(b[i+3])
+		if b[i+1] == 0xda {
+			f.End = i + 2 + l
+			break
+		}
+		i += 2 + l
 	}
 	return f
 }
